@@ -16,6 +16,7 @@ fn table() -> Vec<(&'static str, RunFn, ReplayFn)> {
         ("C05", props::c05::run as RunFn, props::c05::replay as ReplayFn),
         ("C06", props::c06::run as RunFn, props::c06::replay as ReplayFn),
         ("C07", props::c07::run as RunFn, props::c07::replay as ReplayFn),
+        ("C08", props::c08::run as RunFn, props::c08::replay as ReplayFn),
         ("C09", props::c09::run as RunFn, props::c09::replay as ReplayFn),
         ("C10", props::c10::run as RunFn, props::c10::replay as ReplayFn),
         ("C11", props::c11::run as RunFn, props::c11::replay as ReplayFn),
